@@ -7,13 +7,22 @@
     replayed on the implementation by the check).  What IS universally true of
     Map - the structural invariant of every reachable state, the dedup gate, the
     clock laws, the read contexts - is proved in full, generically in the nested
-    value type (hence at every nesting depth).  The declarative "key present iff
-    an applied update is not covered by an applied remove, value = the surviving
-    nested updates" is NOT proved for any fragment: it stays a monitored claim
-    (the monitor compares reads with the canonical causal replay and classifies
-    every disagreement against T1-T3). *)
+    value type (hence at every nesting depth).
+
+    The KEY half of the property ("key present iff an applied update is not covered
+    by an applied remove"; the entry clock = the surviving witnesses; removing a key
+    covers only what was seen) IS proved, for every nested value type, every history of
+    API-generated ops, every per-actor-ordered delivery schedule with duplicates and
+    merges: the key layer of a Map state (map clock, key set with entry clocks,
+    pending-remove table) is an Orswot over the keys (simulation [kabs]/[oabs],
+    proofs/MapKeys.v) and inherits the Orswot refinement theorem.  The executable
+    [mkeyspec_ok] of spec/MapSpec.v, which the monitor evaluates on the implementation,
+    is proved to hold of every reachable model state.  The VALUE half ("value = the
+    surviving nested updates") is what T1-T3 refute; outside those classes it stays a
+    monitored claim (canonical causal replay + known-finding classes). *)
 From stdpp Require Import gmap.
-From Crdt Require Import model.Orswot model.MVReg model.Map proofs.VClock proofs.MapFacts proofs.MapRefuted.
+From Crdt Require Import model.Orswot model.MVReg model.Map spec.System spec.OrswotSpec spec.OrswotSystem
+  spec.MapSpec spec.MapSystem proofs.VClock proofs.MapFacts proofs.MapRefuted proofs.OrswotSystem proofs.MapKeys.
 Local Open Scope N_scope.
 
 (** T1: a value written after seeing another key's update survives the removal of its key under one causal order and not under another / under merge *)
@@ -109,3 +118,112 @@ Theorem C05_map_clock_laws {V O E} (vo : valops V O E) (s o : cmap V) (op : mop 
   vleq (mclock s) (mclock (mapply vo s op)) /\ mclock (mmerge vo s o) = vmerge (mclock s) (mclock o).
 Proof. exact (conj (mapply_clock_mono vo s op) (mmerge_clock vo s o)). Qed.
 Print Assumptions C05_map_clock_laws.
+
+(** * The key layer of Map: positive refinement theorems (generic in the nested value type) *)
+
+(** API-generated histories are structurally well-formed at key level *)
+Theorem C05_map_history_wf {V O E} (vo : valops V O E) (H : list (oprec (mop O))) :
+  maphist_ok vo H -> owfH (habs H).
+Proof. exact (maphist_ok_wf vo H). Qed.
+Print Assumptions C05_map_history_wf.
+
+(** every reachable state (per-actor delivery, duplicates, merges): its key layer is the
+    specification of its knowledge; the monitor's decider accepts it; a key is present iff
+    one of its applied updates is covered by no applied remove naming it; the remove context
+    handed out by [get] is exactly the clock of the surviving witnesses; a key whose every
+    applied update is covered is absent *)
+Theorem C05_map_keys_refine {V O E} (vo : valops V O E) (H : list (oprec (mop O))) :
+  maphist_ok vo H ->
+  forall (s : cmap V) (K : gset nat) (k : N), mapreach vo H s K ->
+    kabs s = ospec (habs H) K
+    /\ mkeyspec_ok H K s = true
+    /\ (k ∈ dom (mentries s) <->
+        exists (d : dot) (o : O), MUp d k o ∈ known_ops H K
+          /\ ~ exists (c : gmap N N) (ks : gset N), MRm c ks ∈ known_ops H K /\ k ∈ ks /\ dcounter d <= vget c (dactor d))
+    /\ rm_clock (mget s k) = mspec_entry_clock (known_ops H K) k
+    /\ (mlive_dots (known_ops H K) k = [] -> mentries s !! k = None).
+Proof. exact (map_keys_api vo H). Qed.
+Print Assumptions C05_map_keys_refine.
+
+(** equal knowledge, equal key-level reads *)
+Theorem C05_map_keys_converge {V O E} (vo : valops V O E) (H : list (oprec (mop O))) :
+  owfH (habs H) ->
+  forall (s1 s2 : cmap V) (K : gset nat), mapreach vo H s1 K -> mapreach vo H s2 K ->
+    mclock s1 = mclock s2
+    /\ dom (mentries s1) = dom (mentries s2)
+    /\ (forall k : N, rm_clock (mget s1 k) = rm_clock (mget s2 k))
+    /\ (forall k : N, add_clock (mget s1 k) = add_clock (mget s2 k))
+    /\ mread_ctx s1 = mread_ctx s2
+    /\ rval (mlen s1) = rval (mlen s2)
+    /\ rval (mis_empty s1) = rval (mis_empty s2) /\ mdeferred s1 = mdeferred s2.
+Proof. exact (map_keys_converge_reads vo H). Qed.
+Print Assumptions C05_map_keys_converge.
+
+(** merge at key level: commutative, associative, idempotent, = learning the union, = the Orswot merge *)
+Theorem C05_map_keys_merge_laws {V O E} (vo : valops V O E) (H : list (oprec (mop O))) :
+  owfH (habs H) ->
+  forall (s1 : cmap V) (K1 : gset nat) (s2 : cmap V) (K2 : gset nat) (s3 : cmap V) (K3 : gset nat),
+    mapreach vo H s1 K1 -> mapreach vo H s2 K2 -> mapreach vo H s3 K3 ->
+    kabs (mmerge vo s1 s2) = kabs (mmerge vo s2 s1)
+    /\ kabs (mmerge vo (mmerge vo s1 s2) s3) = kabs (mmerge vo s1 (mmerge vo s2 s3))
+    /\ kabs (mmerge vo s1 s1) = kabs s1
+    /\ kabs (mmerge vo s1 s2) = ospec (habs H) (K1 ∪ K2)
+    /\ kabs (mmerge vo s1 s2) = omerge (kabs s1) (kabs s2).
+Proof. exact (map_keys_merge_laws vo H). Qed.
+Print Assumptions C05_map_keys_merge_laws.
+
+(** duplicates and stale states change nothing at key level *)
+Theorem C05_map_keys_absorb {V O E} (vo : valops V O E) (H : list (oprec (mop O))) :
+  owfH (habs H) ->
+  forall (s : cmap V) (K : gset nat) (i : nat) (r : oprec (mop O)) (s' : cmap V) (K' : gset nat),
+    mapreach vo H s K -> mapreach vo H s' K' ->
+    (H !! i = Some r -> i ∈ K -> kabs (mapply vo s (op_val r)) = kabs s)
+    /\ (K' ⊆ K -> kabs (mmerge vo s s') = kabs s).
+Proof. exact (map_keys_absorb vo H). Qed.
+Print Assumptions C05_map_keys_absorb.
+
+(** the pending-remove table holds exactly the applied removes the map clock does not cover yet *)
+Theorem C05_map_pending_removes {V O E} (vo : valops V O E) (H : list (oprec (mop O))) :
+  maphist_ok vo H ->
+  forall (s : cmap V) (K : gset nat) (c : gmap N N), mapreach vo H s K ->
+    (forall ks : gset N, mdeferred s !! c = Some ks ->
+       vwf c /\ c <> ∅ /\ vle c (mclock s) = false
+       /\ (forall k : N, k ∈ ks <-> exists ks' : gset N, MRm c ks' ∈ known_ops H K /\ k ∈ ks'))
+    /\ ((exists ks : gset N, MRm c ks ∈ known_ops H K) -> vle c (mclock s) = false -> is_Some (mdeferred s !! c))
+    /\ (vle c (mclock s) = true -> mdeferred s !! c = None)
+    /\ (forall (k : N) (e : mentry V), mentries s !! k = Some e -> eclock e <> ∅).
+Proof. exact (map_keys_pending vo H). Qed.
+Print Assumptions C05_map_pending_removes.
+
+(** the dot an update gets from a read at its author's replica is fresh *)
+Theorem C05_map_update_dot_fresh {V O E} (vo : valops V O E) (H : list (oprec (mop O))) :
+  maphist_ok vo H ->
+  forall (s : cmap V) (K : gset nat) (a : N), mapreach vo H s K -> own_known H a K ->
+    let d := ac_dot (derive_add_ctx (mread_ctx s) a) in
+    dactor d = a /\ dcounter d = vget (mclock s) a + 1
+    /\ (forall (j : nat) (r : oprec (mop O)) (k : N) (o : O), H !! j = Some r -> op_val r <> MUp d k o).
+Proof. exact (map_update_dot_fresh vo H). Qed.
+Print Assumptions C05_map_update_dot_fresh.
+
+(** non-vacuity: a three-op API-generated history (two concurrent updates of key 7, a remove
+    that saw only the first) with a reachable state on which the key survives with exactly the
+    unseen witness, and a reachable state on which it is gone *)
+Theorem C05_map_keys_example :
+  let u1 := MUp (Dot 1 1) 7 (MVPut {[1 := 1]} 5) in
+  let u2 := MUp (Dot 2 1) 7 (MVPut {[2 := 1]} 6) in
+  let rm := MRm {[1 := 1]} {[7]} : mop mvop in
+  let H := [OpRec 1 u1 ∅; OpRec 2 u2 ∅; OpRec 1 rm (∅ ∪ {[0%nat]})] in
+  let s := mapply mvreg_valops (mapply mvreg_valops (mapply mvreg_valops mnew u1) u2) rm in
+  let K := (∅ ∪ {[0%nat]} ∪ {[1%nat]} ∪ {[2%nat]} : gset nat) in
+  let s' := mapply mvreg_valops (mapply mvreg_valops mnew u1) rm in
+  maphist_ok mvreg_valops H
+  /\ mapreach mvreg_valops H s K
+  /\ known_ops H K = [u1; u2; rm]
+  /\ 7 ∈ dom (mentries s)
+  /\ rm_clock (mget s 7) = {[2 := 1]}
+  /\ mlive_dots (known_ops H K) 7 = [Dot 2 1]
+  /\ mkeyspec_ok H K s = true
+  /\ mapreach mvreg_valops H s' (∅ ∪ {[0%nat]} ∪ {[2%nat]})
+  /\ mentries s' = ∅.
+Proof. exact map_keys_example. Qed.
+Print Assumptions C05_map_keys_example.
